@@ -164,7 +164,7 @@ Section FallThrough.
     mkTask i j 1%positive 1%positive 0 empty_res empty_res false true Running (Some 1%positive).
   Let jb (i : positive) : job := mkJob i 1%positive 0 ∅ 0 ∅ ∅ empty_res empty_res ∅ ∅.
   Let s0 : sess := mkSess ∅ {[1%positive := jb 1; 2%positive := jb 2]} ∅ ∅ [] ∅ ∅ ∅ [] [] ∅ ∅ true.
-  Let E0 : env := mkEnv [[mkPlug KPrio true true]; [mkPlug KConf true true]] ∅ ∅ ∅ ∅.
+  Let E0 : env := mkEnv [[mkPlug KPrio true true]; [mkPlug KConf true true]] ∅ ∅ ∅ ∅ [].
   Let victim := tk 11 1.
   Let preemptor := tk 21 2.
 
